@@ -1,5 +1,101 @@
-(* STUB: Spec layer for sdt -- to be written *)
-From Coq Require Import NArith List.
+(* Spec layer for the generic table (C13): a plain byte vector subjected to the same appends and writes, with the Length
+   field (bytes 4..8) rewritten on every append and the checksum byte (9) recomputed after every operation.
+   Case vocabulary: see Impl/Sdt.v (shared with the harness).  Nothing here refers to the Impl model. *)
+From Coq Require Import NArith List Bool.
 From ACPI Require Import Lib.Bytes Lib.Sx Spec.Layout.
 Import ListNotations.
-Definition sdt_spec : tspec := null_spec.
+Open Scope N_scope.
+
+(* replace the bytes at [off, off + |b|) of a vector (defined when they fit) *)
+Definition vec_write (v : list N) (off : nat) (b : list N) : option (list N) :=
+  if Nat.leb (off + length b) (length v) then Some (firstn off v ++ b ++ skipn (off + length b) v) else None.
+
+(* set byte 9 so that the whole vector sums to 0 mod 256 *)
+Definition with_checksum (v : list N) : list N :=
+  let z := firstn 9 v ++ [0] ++ skipn 10 v in
+  firstn 9 v ++ [(256 - sumN z mod 256) mod 256] ++ skipn 10 v.
+
+Definition with_length (v : list N) : list N := firstn 4 v ++ le 4 (N.of_nat (length v)) ++ skipn 8 v.
+
+Definition spec_width (w : N) : option nat :=
+  match w with 1 => Some 1%nat | 2 => Some 2%nat | 4 => Some 4%nat | 8 => Some 8%nat | _ => None end.
+
+(* Some (Some v') performed; Some None must be refused; None malformed *)
+Definition sdt_spec_op (v : list N) (o : sx) : option (option (list N)) :=
+  match o with
+  | SL [SA 1; SA w; SA x] | SL [SA 5; SA w; SA x] =>
+      match spec_width w with Some k => Some (Some (with_checksum (with_length (v ++ le k x)))) | None => None end
+  | SL [SA 2; b] =>
+      match sx_bytes b with Some bytes => Some (Some (with_checksum (with_length (v ++ bytes)))) | None => None end
+  | SL [SA 6; b] =>                   (* bytes pushed through the sink are appended one at a time: none pushed, nothing happens *)
+      match sx_bytes b with
+      | Some [] => Some (Some v)
+      | Some bytes => Some (Some (with_checksum (with_length (v ++ bytes))))
+      | None => None
+      end
+  | SL [SA 3; SA off; b] =>
+      match sx_bytes b with
+      | Some bytes => if off + N.of_nat (length bytes) <=? N.of_nat (length v)
+                      then Some (option_map with_checksum (vec_write v (N.to_nat off) bytes)) else Some None
+      | None => None
+      end
+  | SL [SA 4; SA w; SA off; SA x] =>
+      match spec_width w with
+      | Some k => if off + N.of_nat k <=? N.of_nat (length v)
+                  then Some (option_map with_checksum (vec_write v (N.to_nat off) (le k x))) else Some None
+      | None => None
+      end
+  | SL [SA 7] => Some (Some (with_checksum v))
+  | _ => None
+  end.
+
+Definition sdt_spec_new (c : sx) : option (list N) :=
+  match c with
+  | SL [sg; SA len; SA rev; o; t; SA orev] =>
+      match sx_bytes sg, sx_bytes o, sx_bytes t with
+      | Some sig, Some oem, Some tb =>
+          if Nat.eqb (length sig) 4 && Nat.eqb (length oem) 6 && Nat.eqb (length tb) 8 && (36 <=? len) && (len <? 2 ^ 32)
+          then Some (with_checksum (sig ++ le 4 len ++ [rev mod 256; 0] ++ oem ++ tb ++ le 4 orev ++ CREATOR
+                                    ++ repeatN 0 (N.to_nat len - 36)))
+          else None
+      | _, _, _ => None
+      end
+  | _ => None
+  end.
+
+(* the reference vector after a prefix of operations; refused operations leave it unchanged *)
+Fixpoint sdt_spec_run (v : list N) (ops : list sx) : option (list N) :=
+  match ops with
+  | [] => Some v
+  | o :: r => match sdt_spec_op v o with
+              | Some (Some v') => sdt_spec_run v' r
+              | Some None => sdt_spec_run v r
+              | None => None
+              end
+  end.
+
+Definition sdt_image (ctor : sx) (ops : list sx) : option (list N) :=
+  match sdt_spec_new ctor with Some v => sdt_spec_run v ops | None => None end.
+
+Definition sdt_spec : tspec := {|
+  ts_image := sdt_image; ts_walk := None; ts_entries := fun _ _ => None; ts_counts := fun _ => [];
+  ts_returns := fun _ => false |}.
+
+(* C13 needs more than the images: which operations must be refused.  Judged on the reported numbers. *)
+Fixpoint sdt_refusals_ok (v : list N) (ops : list sx) (evs : list ev) : bool :=
+  match ops with
+  | [] => true
+  | SA _ :: r => match evs with _ :: evs' => sdt_refusals_ok v r evs' | [] => true end
+  | o :: r =>
+      match sdt_spec_op v o, evs with
+      | Some (Some v'), EvNum n :: evs' => (n =? 0) && sdt_refusals_ok v' r evs'
+      | Some None, EvNum n :: evs' => (n =? 1) && sdt_refusals_ok v r evs'
+      | _, _ => true
+      end
+  end.
+
+Definition sdt_oracle (c : sx) (evs : list ev) : bool :=
+  match c with
+  | SL (ctor :: ops) => match sdt_spec_new ctor with Some v => sdt_refusals_ok v ops evs | None => true end
+  | _ => false
+  end.
